@@ -31,6 +31,10 @@ CONSTANTS NU,        \* use the first NU units of UnitList
           TrOnly,    \* also enumerate transposed arrays whose coordinates were registered in the final order
           AxisBy,    \* "dims": set_value_at_pos takes the axis number from array.dims (get_axis_num)      [the code]
                      \* "indexes": from the position in list(array.indexes)                  [history: seeded defect sb2]
+          Memo,      \* FALSE: every constructor call builds its coordinates afresh [the code]
+                     \* TRUE: the coordinate array is memoised on (start, stop, step) and shared [history: seeded defect C16-r4sb1]
+          RangeBy,   \* "coords": get_dim_range = min / max of the coordinates [the code]
+                     \* "attrs": the start / stop attributes of the coordinate when present [history: seeded defect C16-r4sb2]
           LookupBy,  \* "search": the index is found by comparing with the coordinates [the code]
                      \* "step_attr": computed from the step ATTRIBUTE when there is one [history: seeded defect C20-r3sb1]
           StepPrec,  \* "step": an explicit step wins over samplerate [the code, the docstring] / "samplerate" [history: seeded defect r2sb1]
@@ -58,12 +62,19 @@ RangeOpts(s, m, both) ==
                         \cup (IF Whole(m) THEN {Opt("range", TRUE, <<>>, <<m \div 4>>)} ELSE {})
                         \cup (IF s[1] = 1 THEN {Opt("time", TRUE, <<<<s[2], 1>>>>, <<>>)} ELSE {})
            ELSE {})
-MkRange(o, s, a4, m, sm) == [kind |-> "range", fn |-> o.fn, st |-> o.st, sr |-> o.sr, size |-> o.size, s |-> s, a4 |-> a4, m |-> m, sm |-> sm]
+\* hist = <<>>: one call.  hist = <<<<mut, fn2>>>>: a history -- construct, edit the returned Variable in place (mut = "add":
+\* var += offset, "set0": var.values[0] = ...), then ask constructor fn2 for the same (start, stop, step) again; the SECOND
+\* result is the one judged, by the same clauses.  Nothing may be carried over from the first call.
+MkRangeH(o, s, a4, m, sm, h) == [kind |-> "range", fn |-> o.fn, st |-> o.st, sr |-> o.sr, size |-> o.size, s |-> s, a4 |-> a4, m |-> m, sm |-> sm, hist |-> h]
+MkRange(o, s, a4, m, sm) == MkRangeH(o, s, a4, m, sm, <<>>)
 \* the "both" variants for the first start only; the stop formed as start + (m/4)*step ("fma") only for the plain call
 \* (existential quantifiers in Init rather than a UNION of sets: TLC enumerates them without building and normalising the set)
-InitRange == \E s \in Units, a4 \in Starts, m \in 1..MaxM :
-                \/ \E o \in RangeOpts(s, m, a4 = StartList[1]) : c = MkRange(o, s, a4, m, "near")
-                \/ c = MkRange(Opt("range", TRUE, <<>>, <<>>), s, a4, m, "fma")
+InitRange == \/ \E s \in Units, a4 \in Starts, m \in 1..MaxM :
+                   \/ \E o \in RangeOpts(s, m, a4 = StartList[1]) : c = MkRange(o, s, a4, m, "near")
+                   \/ c = MkRange(Opt("range", TRUE, <<>>, <<>>), s, a4, m, "fma")
+             \* histories: first two units, first start, stops on half steps
+             \/ \E u \in 1..2, mh \in {x \in 2..MaxM : x % 2 = 0}, fn1 \in {"range", "time", "freq"}, fn2 \in {"range", "time", "freq"}, mut \in {"add", "set0"} :
+                   c = MkRangeH(Opt(fn1, TRUE, <<>>, <<>>), UnitList[u], StartList[1], mh, "near", <<<<mut, fn2>>>>)
 
 Positions(n) == {Tk * k : k \in 0..(n - 1)} \cup {Tk * k + 1 : k \in 0..(n - 1)} \cup {Tk * k - 1 : k \in 0..(n - 1)}
                 \cup {Tk * k + 4 : k \in 0..(n - 2)} \cup {-4, Tk * (n - 1) + 4}
@@ -80,12 +91,22 @@ IntAxis(x)    == x.dt \in {"i8", "i4"}
 Lat(ir, k) == IF ir = 0 THEN k ELSE IF ir = 1 THEN (k * (k + 1)) \div 2 ELSE k + k \div 2
 Matching  == <<<<1, 1>>>>
 AxisVars  == {<<sa, 0>> : sa \in {<<>>, <<<<1, 2>>>>, <<<<1, 3>>>>, <<<<2, 1>>>>}} \cup {<<sa, ir>> : sa \in {<<>>, Matching}, ir \in {1, 2}}
-MkIndex(u, a4, dt, n, p, re, sa, ir) == [kind |-> "index", s |-> u, a4 |-> a4, dt |-> dt, n |-> n, p |-> p, re |-> re, sa |-> sa, ir |-> ir]
+\* ra = <<>>: the coordinate has no start / stop attributes.  ra = <<<<src, dl, dh>>>>: it has, and they are WIDER than the
+\* coordinates: start = first coordinate - dl ticks, stop = last coordinate + dh ticks (Tk ticks per step).
+\*   src = "attrs": annotated with set_dim_attrs(start=, stop=);  src = "extend": the array went through extend_dim, which
+\*   records start - eps (dl = 1 tick: the sliver just below the first coordinate) and the requested stop.
+\* The range of an axis, for raise / clamp as for the bracket, is defined by its coordinates.
+MkIndexR(u, a4, dt, n, p, re, sa, ir, ra) == [kind |-> "index", s |-> u, a4 |-> a4, dt |-> dt, n |-> n, p |-> p, re |-> re, sa |-> sa, ir |-> ir, ra |-> ra]
+MkIndex(u, a4, dt, n, p, re, sa, ir) == MkIndexR(u, a4, dt, n, p, re, sa, ir, <<>>)
+RaVars == {<<<<"attrs", 4, 4>>>>, <<<<"attrs", 3 * Tk, 3 * Tk>>>>, <<<<"extend", 1, 6>>>>}
 InitIndex == \/ \E u \in Units, a4 \in Starts, n \in 1..MaxN : \E dt \in Dtypes(u, a4), p \in Positions(n), re \in BOOLEAN :
                    c = MkIndex(u, a4, dt, n, p, re, Matching, 0)
              \* attributes that disagree with the coordinates: a sub-universe (first two units, first start, raise mode)
              \/ \E u \in 1..2, n \in 2..MaxN : \E dt \in Dtypes(UnitList[u], StartList[1]) \cap {"f8", "i8"}, p \in Positions(n), v \in AxisVars :
                    c = MkIndex(UnitList[u], StartList[1], dt, n, p, TRUE, v[1], v[2])
+             \* start / stop attributes wider than the coordinates: first two units, first start, float64
+             \/ \E u \in 1..2, n \in 1..MaxN : \E p \in Positions(n), re \in BOOLEAN, ra \in RaVars :
+                   c = MkIndexR(UnitList[u], StartList[1], "f8", n, p, re, Matching, 0, ra)
 
 SetPositions(n) == {Tk * k : k \in 0..(n - 1)} \cup {Tk * k + 4 : k \in 0..(n - 2)} \cup {-4, Tk * (n - 1) + 4}
 Shapes == UNION {IF d = 1 THEN {<<x>> : x \in 1..MaxSize}
@@ -123,13 +144,13 @@ SetCasesFor(s, sh, dt) ==
     LET d    == Len(sh)
         sub  == s = UnitList[1] /\ dt = "f8"                          \* the sub-universe that carries the new dimensions
         Rec(q, vm, lay, nc, v) == [kind |-> "set", s |-> s, dt |-> dt, sh |-> sh, q |-> q, vm |-> vm, reg |-> lay[1], tr |-> lay[2],
-                                   nc |-> nc, sa |-> v[1], ir |-> v[2]]
+                                   nc |-> nc, sa |-> v[1], ir |-> v[2], ra |-> v[3]]
         lays == IF sub THEN Layouts(d) ELSE {<<IdP(d), IdP(d)>>}
         ncs  == IF sub THEN NoCoord(sh) ELSE {<<>>}
-        avs  == IF sub /\ d <= 2 THEN {<<<<>>, 0>>, <<<<<<1, 2>>>>, 0>>, <<Matching, 1>>} ELSE {}
-    IN  {x \in {Rec(q, vm, lay, nc, <<Matching, 0>>) : q \in Queries(sh), vm \in {"scalar", "array"}, lay \in lays, nc \in ncs} : SetCaseOK(x)}
+        avs  == IF sub /\ d <= 2 THEN {<<<<>>, 0, <<>>>>, <<<<<<1, 2>>>>, 0, <<>>>>, <<Matching, 1, <<>>>>, <<Matching, 0, <<<<"attrs", 4, 4>>>>>>} ELSE {}
+    IN  {x \in {Rec(q, vm, lay, nc, <<Matching, 0, <<>>>>) : q \in Queries(sh), vm \in {"scalar", "array"}, lay \in lays, nc \in ncs} : SetCaseOK(x)}
         \cup {x \in {Rec(q, vm, <<IdP(d), IdP(d)>>, <<>>, v) : q \in Queries(sh), vm \in {"scalar", "array"}, v \in avs} : SetCaseOK(x)}
-R0 == [es |-> <<0, 1>>, len |-> 0, k |-> "none", v |-> -1, ix |-> <<>>, hit |-> TRUE, after |-> <<>>]
+R0 == [call |-> 1, memo |-> FALSE, dirty |-> FALSE, es |-> <<0, 1>>, len |-> 0, k |-> "none", v |-> -1, ix |-> <<>>, hit |-> TRUE, after |-> <<>>]
 Init == /\ pc = "start" /\ i = 0
         /\ \/ InitRange
            \/ InitIndex
@@ -147,24 +168,35 @@ Resolve == /\ c.kind = "range" /\ pc = "start"
                         ELSE IF ~IsNone(c.sr) THEN fromsr ELSE fromsz
               IN  r' = [r EXCEPT !.es = es]
            /\ pc' = "arange" /\ UNCHANGED <<c, i>>
+AfterBuild == IF ~IsNone(c.hist) /\ r.call = 1 THEN "mutate" ELSE "done"
 Arange == /\ c.kind = "range" /\ pc = "arange"
           /\ \E len \in {CeilDiv(c.m, 4)} \cup (IF Stress(c.s) /\ Whole(c.m) THEN {c.m \div 4 + 1} ELSE {}) :
                 r' = [r EXCEPT !.len = len]
-          /\ pc' = (IF Trim THEN "trim" ELSE "done") /\ UNCHANGED <<c, i>>
+          /\ pc' = (IF Trim THEN "trim" ELSE AfterBuild) /\ UNCHANGED <<c, i>>
 \* last >= stop - s/2   <=>   4*(len-1) >= m - 2   (quarter steps)
 TrimDrop == /\ c.kind = "range" /\ pc = "trim" /\ r.len > 0
             /\ \/ 4 * (r.len - 1) > c.m - 2
                \/ 4 * (r.len - 1) = c.m - 2                          \* tie: exact when dyadic, either way otherwise
-            /\ r' = [r EXCEPT !.len = r.len - 1] /\ pc' = "done" /\ UNCHANGED <<c, i>>
+            /\ r' = [r EXCEPT !.len = r.len - 1] /\ pc' = AfterBuild /\ UNCHANGED <<c, i>>
 TrimKeep == /\ c.kind = "range" /\ pc = "trim"
             /\ \/ 4 * (r.len - 1) < c.m - 2
                \/ 4 * (r.len - 1) = c.m - 2 /\ Stress(c.s)
-            /\ pc' = "done" /\ UNCHANGED <<c, i, r>>
+            /\ pc' = AfterBuild /\ UNCHANGED <<c, i, r>>
+\* history: the caller edits the Variable it was given; if the library kept a reference to that array, it is now dirty
+Mutate == /\ c.kind = "range" /\ pc = "mutate"
+          /\ r' = [r EXCEPT !.memo = TRUE, !.call = 2] /\ pc' = "again" /\ UNCHANGED <<c, i>>
+\* second call with the same arguments (fn2 passes the step itself): built afresh -- or, seeded, served from the memo
+Again  == /\ c.kind = "range" /\ pc = "again"
+          /\ IF Memo /\ r.memo THEN r' = [r EXCEPT !.dirty = TRUE] /\ pc' = "done"
+             ELSE r' = [r EXCEPT !.es = c.s, !.len = 0] /\ pc' = "arange"
+          /\ UNCHANGED <<c, i>>
 
 (* ------------------------------------------------------------ index: Impl *)
 Last(n) == Tk * (n - 1)
+AttrLo(x) == IF RangeBy = "attrs" /\ ~IsNone(x.ra) THEN -(Some(x.ra)[2]) ELSE 0
+AttrHi(x) == IF RangeBy = "attrs" /\ ~IsNone(x.ra) THEN Some(x.ra)[3] ELSE 0
 Check == /\ c.kind = "index" /\ pc = "start"
-         /\ IF c.p < 0 \/ c.p > Last(c.n)
+         /\ IF c.p < AttrLo(c) \/ c.p > Last(c.n) + AttrHi(c)
             THEN /\ pc' = "done"
                  /\ r' = IF c.re THEN [r EXCEPT !.k = "raise"]
                          ELSE IF c.p < 0 THEN [r EXCEPT !.k = "int", !.v = 0]
@@ -209,7 +241,7 @@ Lookup == /\ c.kind = "set" /\ pc = "start" /\ i < Len(c.sh)
           /\ LET d == i + 1 IN
              IF IsNone(c.q[d]) THEN r' = r /\ pc' = pc
              ELSE LET p == Some(c.q[d]) IN
-                  IF p < 0 \/ p > Last(c.sh[d])
+                  IF p < AttrLo(c) \/ p > Last(c.sh[d]) + AttrHi(c)
                   THEN r' = [r EXCEPT !.hit = FALSE, !.k = "raise", !.after = Before(c.sh)] /\ pc' = "done"     \* KeyError before any write
                   ELSE r' = [r EXCEPT !.ix[AxisOf(c, d)] = <<ImplIndex(c.sh[d], p)>>] /\ pc' = pc
           /\ i' = i + 1 /\ UNCHANGED c
@@ -219,7 +251,7 @@ Write == /\ c.kind = "set" /\ pc = "start" /\ i = Len(c.sh)
                      IN  IF Addressed(r.ix, idx) THEN VAt(c.sh, r.ix, idx, ValueOf(c)) ELSE f]]
          /\ pc' = "done" /\ UNCHANGED <<c, i>>
 
-Next == Fast \/ Resolve \/ Arange \/ TrimDrop \/ TrimKeep \/ Check \/ Scan \/ Found \/ Lookup \/ Write
+Next == Fast \/ Resolve \/ Arange \/ TrimDrop \/ TrimKeep \/ Mutate \/ Again \/ Check \/ Scan \/ Found \/ Lookup \/ Write
 Spec == Init /\ [][Next]_vars /\ WF_vars(Next)
 
 Export == (pc = "start" /\ i = 0) => PrintT(<<"CASE", ToJson(c)>>)
@@ -229,6 +261,7 @@ Done == pc = "done"
 \* range
 ImplStep           == (c.kind = "range" /\ pc # "start") => REq(r.es, Denoted(c))
 LawDenoted         == c.kind = "range" => REq(Denoted(c), c.s)          \* the generator is consistent: clauses judge against c.s
+ImplFresh          == (c.kind = "range" /\ Done) => ~r.dirty              \* the result never shares state with an earlier call
 ImplCountWhenWhole == (c.kind = "range" /\ Done) => CountWhole(c.m, r.len)
 ImplCountFloorCeil == (c.kind = "range" /\ Done) => CountFloorCeil(c.m, r.len)
 ImplInside         == (c.kind = "range" /\ Done) => \A j \in 0..(r.len - 1) : j \in RangeIdx(c.m)     \* no point at or after stop
